@@ -97,7 +97,10 @@ func NewClusterPackageDeployer(
 ) *PackageDeployer {
 	return &PackageDeployer{
 		client: c,
-		scheme: scheme,
+		// ClusterPackages have no dedicated uncached client wired in,
+		// but validateUnique needs a client to list ClusterPackages.
+		uncachedClient: c,
+		scheme:         scheme,
 
 		newObjectDeployment: adapters.NewClusterObjectDeployment,
 		structuralLoader:    packagestructure.DefaultStructuralLoader,
